@@ -17,7 +17,7 @@ META = {
              "counts >= 4 or a repeated block with >= 2 relation leaves"),
     "assumptions": ["reference model qv/model.py (unroll = n copies, copy k+1 FOLLOWED_BY the latest-ending relation leaf before it)"],
     "floors": {
-        "quick": {"unrolled_programs": 3000, "late_repetition_settings": 600, "registry_counts_changed_after_unrolling": 1200, "unrolled_reread_after_registry_change": 800, "apply_modifiers_post": 3000, "idempotence_checks": 3000, "library_concatenation_checks": 40,
+        "quick": {"unrolled_programs": 3000, "late_repetition_settings": 600, "registry_counts_changed_after_unrolling": 1200, "unrolled_reread_after_registry_change": 800, "apply_modifiers_post": 3000, "idempotence_checks": 3000, "library_concatenation_checks": 40, "library_concatenation_under_other_durations": 15, "unrolled_listing_order_checks": 3000,
                   "identity_outside_blocks": 5000, "time_triples_compared": 50000, "eq_multi": 20000},
         "thorough": {"unrolled_programs": 30000, "apply_modifiers_post": 30000, "library_concatenation_checks": 300},
     },
@@ -137,6 +137,18 @@ def check_program(prog: Dict[str, Any], acc: Acc, flags=None):
                 sig = "stale-memo/unrolled-duration" if abs(shadow_d - want_d) <= TOL else "unroll/duration"
                 acc.finding(sig, "duration of the unrolled circuit differs from the model (n back-to-back copies)", case,
                             {"library": got_d, "model": want_d, "memo_free": shadow_d})
+        # ---- "n copies chained one after another": in the unrolled listing every operation comes after the operation(s) its relation refers
+        #      to - the heads of copy k+1 after every leaf of copy k they follow (seeded change C06-r11: copies hung under the latest-ENDING leaf)
+        pos = {id(o): k for k, o in enumerate(ops)}
+        acc.count("unrolled_listing_order_checks")
+        for k, o in enumerate(ops):
+            li = snap.link_info(o)
+            refs = [li["ref"]] if li["kind"] == "single" and li.get("ref") is not None else (li.get("refs") or [] if li["kind"] == "multi" else [])
+            late = [r for r in refs if not snap.is_composite(r) and id(r) in pos and pos[id(r)] >= k]
+            if late:
+                acc.finding("unroll/listing-order", "an operation of the unrolled circuit is listed before an operation its relation refers to (copies are not listed one after another)",
+                            case, {"position": k, "reference_position": pos[id(late[0])], "link": li["kind"]})
+                break
         # ---- idempotence - also when the repetition registry changes in between: the counts were applied once and reset, a
         #      registry value set afterwards has nothing left to act on
         before_ids = [id(o) for o in ops]
@@ -191,10 +203,15 @@ def expected_concatenation(composite) -> List[Tuple]:
 def check_library(inp: Dict[str, Any], acc: Acc):
     case = {"library": inp}
     circuit = libgen.construct(inp)
-    expected = expected_concatenation(circuit.circuit_structure) * circuit.circuit_structure.nr_of_repetitions
-    modified = circuit.apply_modifiers()
-    got = [snap.op_sig(o) for o in modified.operations]
+    # "all duration assignments": the circuit is unrolled and listed under a random global duration table (the listing may not depend on
+    # which leaf of a block happens to end last - seeded change C06-r11)
+    with libgen.override(inp.get("glob") or {}):
+        expected = expected_concatenation(circuit.circuit_structure) * circuit.circuit_structure.nr_of_repetitions
+        modified = circuit.apply_modifiers()
+        got = [snap.op_sig(o) for o in modified.operations]
     acc.count("library_concatenation_checks")
+    if inp.get("glob"):
+        acc.count("library_concatenation_under_other_durations")
     acc.count("operations_observed", len(got))
     if got != expected:
         if sorted(got) != sorted(expected):
@@ -216,6 +233,7 @@ def run_shard(shard: Dict[str, Any]) -> Acc:
         contracts.ENABLED["graph"] = False
         for i in range(shard["n"]):
             inp = libgen.gen_repcode_input(rng, max_distance=4, max_cycles=8, composite_p=0.3)
+            inp["glob"] = libgen.gen_global_settings(rng, default=rng.random() < 0.3)
             acc.hist("class", "library/" + inp["constructor"])
             acc.hist("cycles", inp["cycles"])
             acc.case(bp.phash(inp), inp["cycles"] >= 2, sample=inp if i < 3 else None)
